@@ -42,6 +42,9 @@ def gen_cases(tier: str, seed: int) -> list[dict]:
 def _classify(v: list[dict], run) -> list[dict]:
     if not v:
         return v
+    w2 = oracles.sweep_overlapped_planning(run)
+    if w2:
+        return [viol("C10/sweep-overlaps-stage-planning:tasks-started-before-the-plan-commit", f"{w2}; symptoms {[x['sig'] for x in v][:5]}")]
     w = oracles.recovery_started_parent_before_children(run)
     if w:
         return [viol("C10/recovery-starts-parent-tasks-before-its-before-stages-finished", f"{w}; symptoms {[x['sig'] for x in v][:5]}")]
